@@ -13,6 +13,12 @@ open ICal.SE
 
 /-! ## exclusivity over setter / deleter histories -/
 
+/-- The `exclusive` tuples of cal.py as regenerated into `Gen.compClasses` on this run; `excl_step` and `excl_inv`
+    are proved through these equations, so a changed group breaks them. -/
+theorem exclusive_groups :
+    exclusive .event = [.dtend, .duration] ∧ exclusive .todo = [.due, .duration] ∧ exclusive .journal = [] :=
+  ⟨exclusive_event, exclusive_todo, exclusive_journal⟩
+
 /-- A new component holds neither an end property nor DURATION. -/
 theorem excl_init : Inv St.init := inv_init
 
